@@ -11,7 +11,7 @@ Definition Pre_jitremove_nan (args : list value) : Prop :=
 
 Definition ann_jitremove_nan (l : nat) : annot :=
   match l with
-  | 0%nat => ALoop [("t", KInt); ("ix_start", KArr); ("ix_end", KArr)]
+  | 1%nat => ALoop [("t", KInt); ("ix_start", KArr); ("ix_end", KArr)]
                    (fun st0 st => 1 <= getZ st "t")
   | _ => ANone
   end.
